@@ -1,5 +1,7 @@
 import OrdModel.Proofs.Views
 import OrdModel.Proofs.ViewsLocated
+import OrdModel.Proofs.ViewsFixes
+import OrdModel.Generated.ViewsFixes
 /-!
 # C18 — explorer JSON and recursive endpoints agree with the index
 
@@ -13,9 +15,17 @@ proved for all inputs: the pagination algebra of every listing (for every list l
 number), signed indexing, the in-block window, and that output / inscription views list exactly
 the stored rows.
 
-Two clauses are FALSE of the code as it stands and are recorded as `_fails` + `_partial`:
-* children / parents listings multiply `page * 100` unchecked (`c18_children_page_overflow_fails`);
-* the latest-inscriptions listing answers a non-empty page beyond the end (`c18_latest_beyond_fails`).
+Clauses that are FALSE of the unrepaired code are recorded as `_fails` + `_partial`, and the FULL
+statement is proved of the repaired variant (`_fixed`); the model takes the variant from
+`Generated/ViewsFixes.lean`, which `tools/extractors/views_fixes.py` re-derives from the source text
+on every run (only the unchanged and the exactly patched shapes are accepted):
+* F1 children / parents listings multiply `page * 100` unchecked (`c18_children_page_overflow_fails`,
+  `c18_children_page_total_fixed` — `notes/fix-C18-page-overflow.diff`);
+* F2 `/r/inscription/<id>` (404) and `/sat/<n>` (500) at the null outpoint (`c18_rinscription_null_fails`,
+  `c18_sat_null_fails`, `c18_rinscription_served_fixed`, `c18_sat_served_fixed` —
+  `notes/fix-C18-null-outpoint.diff`);
+* F3 (not repaired) the latest-inscriptions listing answers a non-empty page beyond the end
+  (`c18_latest_beyond_fails`).
 -/
 namespace Ord.Server
 open Ord Ord.Index
@@ -149,24 +159,23 @@ theorem c18_sat_creation_order (st : State) (sat : Nat) :
     (seqsOfSat st sat).Pairwise (· ≤ ·) ∧ ∀ s, s ∈ seqsOfSat st sat ↔ (sat, s) ∈ st.sat2seq :=
   ⟨seqsOfSat_sorted st sat, mem_seqsOfSat st sat⟩
 
-/-- `GET /children/<id>/<page>` and `GET /r/children/<id>/<page>`: a 200 answer is page `page` of
-the stored children (ids of the sliced sequence numbers, pointwise). -/
-theorem c18_children_page (st : State) (id : InscriptionId) (page : Nat) (p : Page InscriptionId)
-    (h : childrenPage st id page = .ok p) :
-    ∃ e, entryOfId st id = some e ∧
+/-- `GET /children/<id>/<page>` and `GET /r/children/<id>/<page>`, whichever variant of the accessor
+the source has: a 200 answer is page `page` of the stored children (ids of the sliced sequence
+numbers, pointwise). -/
+theorem c18_children_page (fx : Fixes) (st : State) (id : InscriptionId) (page : Nat) (p : Page InscriptionId)
+    (h : childrenPage fx st id page = .ok p) :
+    ∃ e, entryOfId st id = some e ∧ ((childrenOf st e.seq).length < USIZE →
       idsOfSeqs st (pageOf (childrenOf st e.seq) PAGE page).1 = some p.items ∧
-      p.more = (pageOf (childrenOf st e.seq) PAGE page).2 ∧ p.page = page := by
-  obtain ⟨e, he, _, hi, hm, hp⟩ := childrenPage_spec st id page p h
-  exact ⟨e, he, hi, hm, hp⟩
+      p.more = (pageOf (childrenOf st e.seq) PAGE page).2 ∧ p.page = page) :=
+  childrenPage_spec fx st id page p h
 
 /-- `GET /r/parents/<id>/<page>`: page `page` of the entry's stored parent list, in stored order. -/
-theorem c18_parents_page (st : State) (id : InscriptionId) (page : Nat) (p : Page InscriptionId)
-    (h : parentsPage st id page = .ok p) :
-    ∃ e, entryOfId st id = some e ∧
+theorem c18_parents_page (fx : Fixes) (st : State) (id : InscriptionId) (page : Nat) (p : Page InscriptionId)
+    (h : parentsPage fx st id page = .ok p) :
+    ∃ e, entryOfId st id = some e ∧ (e.parents.length < USIZE →
       idsOfSeqs st (pageOf e.parents PAGE page).1 = some p.items ∧
-      p.more = (pageOf e.parents PAGE page).2 ∧ p.page = page := by
-  obtain ⟨e, he, _, hi, hm, hp⟩ := parentsPage_spec st id page p h
-  exact ⟨e, he, hi, hm, hp⟩
+      p.more = (pageOf e.parents PAGE page).2 ∧ p.page = page) :=
+  parentsPage_spec fx st id page p h
 
 /-- `GET /r/sat/<n>/<page>`: page `page` of the inscriptions stored on the sat (saturating skip:
 no overflow). -/
@@ -199,19 +208,102 @@ theorem c18_in_block_page (st : State) (h page : Nat) (p : Page InscriptionId) (
 
 /-! ## Clauses that are false of the code as it stands -/
 
-/-- FULL STATEMENT (false): `∀ l page, ∃ r, pageChecked l 100 page = .ok r`.
+/-- FULL STATEMENT (false of the unrepaired accessors): `∀ l page, ∃ r, pageKids false l 100 page = .ok r`.
 The children / parents accessors compute `page_index * page_size` unchecked: for
 `page = 184467440737095517` the product exceeds `usize::MAX` — a panic in the dev profile (a
 wrapped, wrong skip in release).  Replayed on the real server by the harness
 (`GET /r/children/<id>/184467440737095517` drops the connection). -/
 theorem c18_children_page_overflow_fails :
-    pageChecked ([] : List Nat) PAGE 184467440737095517 = .panic "page_index * page_size" := by
+    pageKids false ([] : List Nat) PAGE 184467440737095517 = .panic "page_index * page_size" := by
   decide
 
-/-- what holds: every page number whose product fits answers the plain page -/
+/-- what holds unrepaired: every page number whose product fits answers the plain page -/
 theorem c18_children_page_total_partial {α : Type} (l : List α) (page : Nat) (h : page * PAGE < USIZE) :
-    pageChecked l PAGE page = .ok (pageOf l PAGE page) :=
-  pageChecked_ok l PAGE page h
+    pageKids false l PAGE page = .ok (pageOf l PAGE page) := by
+  rw [pageKids_unfixed]; exact pageChecked_ok l PAGE page h
+
+/-- FULL STATEMENT, of the repaired accessors (`notes/fix-C18-page-overflow.diff`, saturating
+product): EVERY page number of every listing answers, with the plain page — in particular a page
+at or beyond the end is the empty page with `more = false`. -/
+theorem c18_children_page_total_fixed {α : Type} (l : List α) (page : Nat) (hl : l.length < USIZE) :
+    pageKids true l PAGE page = .ok (pageOf l PAGE page) ∧
+    (l.length ≤ page * PAGE → pageKids true l PAGE page = .ok ([], false)) := by
+  refine ⟨pageKids_fixed l PAGE page hl, fun h => ?_⟩
+  rw [pageKids_fixed l PAGE page hl, pageOf_beyond l PAGE page h]
+
+/-- the witness of `c18_children_page_overflow_fails` under the repair: the empty page -/
+theorem c18_children_page_overflow_fixed :
+    pageKids true ([] : List Nat) PAGE 184467440737095517 = .ok ([], false) := by
+  decide
+
+/-! F2 — objects at the null outpoint -/
+
+/-- FULL STATEMENT (false unrepaired): every indexed inscription is served by `/r/inscription/<id>`.
+Unrepaired, one whose stored satpoint is at the null outpoint (lost) is answered 404. -/
+theorem c18_rinscription_null_fails (fx : Fixes) (hfx : fx.nullOutpoint = false) (st : State) (id : InscriptionId)
+    (node : Option NodeOut) (seq : Nat) (e : InsEntry) (sp : SatPoint)
+    (hq : AL.get st.id2seq id = some seq) (he : st.entries[seq]? = some e) (hsp : AL.get st.seq2sp seq = some sp)
+    (hnull : sp.outpoint = OutPoint.null) :
+    rInscription fx st id node = .notFound :=
+  rInscription_null_unfixed fx hfx st id node seq e sp hq he hsp hnull
+
+/-- what holds unrepaired: away from the null outpoint the answer is the repaired one -/
+theorem c18_rinscription_served_partial (fx : Fixes) (st : State) (id : InscriptionId) (node : Option NodeOut)
+    (h : ∀ seq sp, AL.get st.id2seq id = some seq → AL.get st.seq2sp seq = some sp → sp.outpoint ≠ OutPoint.null) :
+    rInscription fx st id node = rInscription Fixes.all st id node :=
+  rInscription_fx_irrelevant fx Fixes.all st id node h
+
+/-- FULL STATEMENT, repaired (`notes/fix-C18-null-outpoint.diff`): every indexed inscription is
+served — with the stored number, height, fee, sat, timestamp, satpoint and charms — whenever it
+sits at the unbound or the null outpoint or the node knows its output; at the two special
+outpoints it is shown with no value and no address ("no output", exactly as for unbound). -/
+theorem c18_rinscription_served_fixed (fx : Fixes) (hfx : fx.nullOutpoint = true) (st : State) (id : InscriptionId)
+    (node : Option NodeOut) (seq : Nat) (e : InsEntry) (sp : SatPoint)
+    (hq : AL.get st.id2seq id = some seq) (he : st.entries[seq]? = some e) (hsp : AL.get st.seq2sp seq = some sp)
+    (hserv : sp.outpoint = OutPoint.unbound ∨ sp.outpoint = OutPoint.null ∨ node.isSome = true) :
+    ∃ v, rInscription fx st id node = .ok v ∧ v.id = id ∧ v.number = e.number ∧ v.height = e.height ∧
+      v.fee = e.fee ∧ v.sat = e.sat ∧ v.timestamp = e.timestamp ∧ v.satpoint = sp ∧ v.charms = e.charms ∧
+      ((sp.outpoint = OutPoint.unbound ∨ sp.outpoint = OutPoint.null) → v.value = none ∧ v.address = none) :=
+  rInscription_served_fixed fx hfx st id node seq e sp hq he hsp hserv
+
+/-- FULL STATEMENT (false unrepaired): the sat page of every sat answers.  Unrepaired, a sat whose
+shown satpoint (rare-sat table, else first inscription) is at the null outpoint is answered 500. -/
+theorem c18_sat_null_fails (fx : Fixes) (hfx : fx.nullOutpoint = false) (st : State) (sat : Nat)
+    (node : Option NodeOut) (ids : List InscriptionId) (sp : SatPoint)
+    (hids : idsOfSeqs st (seqsOfSat st sat) = some ids) (hsp : satSatpoint st sat = some sp)
+    (hnull : sp.outpoint = OutPoint.null) :
+    satView fx st sat node = .internal :=
+  satView_null_unfixed fx hfx st sat node ids sp hids hsp hnull
+
+theorem c18_sat_served_partial (fx : Fixes) (st : State) (sat : Nat) (node : Option NodeOut)
+    (h : ∀ sp, satSatpoint st sat = some sp → sp.outpoint ≠ OutPoint.null) :
+    satView fx st sat node = satView Fixes.all st sat node :=
+  satView_fx_irrelevant fx Fixes.all st sat node h
+
+/-- FULL STATEMENT, repaired: `/sat/<n>` answers for every sat (whenever the node knows the shown
+output or the shown satpoint is absent / unbound / null), listing the stored inscriptions and the
+stored satpoint; no address at the special outpoints. -/
+theorem c18_sat_served_fixed (fx : Fixes) (hfx : fx.nullOutpoint = true) (st : State) (sat : Nat)
+    (node : Option NodeOut) (ids : List InscriptionId)
+    (hids : idsOfSeqs st (seqsOfSat st sat) = some ids)
+    (hserv : ∀ sp, satSatpoint st sat = some sp →
+      sp.outpoint = OutPoint.unbound ∨ sp.outpoint = OutPoint.null ∨ node.isSome = true) :
+    ∃ v, satView fx st sat node = .ok v ∧ v.inscriptions = ids ∧ v.satpoint = satSatpoint st sat ∧
+      (∀ sp, satSatpoint st sat = some sp → (sp.outpoint = OutPoint.unbound ∨ sp.outpoint = OutPoint.null) →
+        v.address = none) :=
+  satView_served_fixed fx hfx st sat node ids hids hserv
+
+/-- a lost inscription (concrete witness): 404 unrepaired, served with no value / address repaired -/
+def lostState : State :=
+  { entries := [{ (default : InsEntry) with id := ⟨7, 0⟩, charms := charmLost }],
+    id2seq := [(⟨7, 0⟩, 0)], seq2sp := [(0, ⟨OutPoint.null, 5⟩)] }
+
+example : (match rInscription Fixes.none lostState ⟨7, 0⟩ none with | .notFound => true | _ => false) = true := by
+  decide
+example : (match rInscription Fixes.all lostState ⟨7, 0⟩ none with
+    | .ok v => v.value == none && v.address == none && v.charms == charmLost && v.satpoint == ⟨OutPoint.null, 5⟩
+    | _ => false) = true := by
+  decide
 
 /-- FULL STATEMENT (false): a page of `GET /inscriptions/<page>` beyond the end is empty.
 With 5 inscriptions, page 1 lists inscription 0 again (`start` and `end` both saturate to 0 and
